@@ -60,6 +60,10 @@ pub enum HMode {
     Prompt(&'static str),
     /// handler reports a parse error (the library prints `error: unknown command`)
     ParseErr,
+    /// a script of writer calls, then the handler reports a parse error
+    ScriptErr(&'static [Piece]),
+    /// a script of writer calls and a prompt change
+    ScriptPrompt(&'static [Piece], &'static str),
 }
 
 #[derive(Clone, Copy, Debug, PartialEq, Eq, Hash, PartialOrd, Ord)]
@@ -326,6 +330,14 @@ impl<'a> CommandProcessor<Sink, SinkErr> for H<'a> {
             HMode::Script(s) => run_script(cli.writer(), s)?,
             HMode::Prompt(p) => cli.set_prompt(p),
             HMode::ParseErr => return Err(ProcessError::ParseError(ParseError::UnknownCommand)),
+            HMode::ScriptErr(s) => {
+                run_script(cli.writer(), s)?;
+                return Err(ProcessError::ParseError(ParseError::UnknownCommand));
+            }
+            HMode::ScriptPrompt(s, p) => {
+                cli.set_prompt(p);
+                run_script(cli.writer(), s)?;
+            }
         }
         Ok(())
     }
